@@ -290,8 +290,35 @@ def random_ops(rng, tier):
     return ops
 
 
+def long_ops(rng, tier):
+    """long streams of small frames: whatever a reader counts (frames, polls, bytes), a count that matters only
+    after dozens or hundreds of frames is out of reach of the short scenarios above"""
+    ops = []
+    for n in (31, 32, 33, 34, 64, 65, 66, 100, 128, 129, 255, 256, 257, 300) * (2 if tier == "quick" else 12):
+        vs = [F.rand_val(rng, rng.choice([5, 5, 40])) for _ in range(n)]
+        ps = [F.payload(v) for v in vs]
+        st = F.frames(ps)
+        ptag = "/".join(gen.hexb(p) for p in ps)
+        ml = max(len(p) for p in ps)
+        parts = F.rand_composition(rng, len(st), rng.choice([1, 3, 7, 64, 100000]))
+        pr = rng.choice([0.0, 0.0, 0.05, 0.3])
+        evs = []
+        for k in parts:
+            while rng.random() < pr:
+                evs.append(rng.choice(["p", "p", "p", "e", "i"]))
+            evs.append(k)
+        evs += tail(len(ps))
+        npolls = sum(1 for e in evs if e in ("p", "e", "i")) + len(ps) + 2
+        pd = rng.choice([0.0, 0.3, 1.0])
+        acts = "".join("p" + ("d" if rng.random() < pd else "") for _ in range(npolls))
+        ops.append(f"aread {ml} {gen.hexb(st)} {F.script_tok(evs)} {acts} #k=rand #complete=1 #p={ptag}")
+    return ops
+
+
 def mk(name, ops, rule):
-    s = Stream(name, "hio", ops, judge=judge, rule=rule,
+    if name != "replay":
+        ops = F.ctor_expand(ops)      # every 4th scenario once more through with_buffer(..) with some buffer
+    s = Stream(name, "hio", ops, model_ops=[F.ctor_plain(o)[0] for o in ops], judge=F.ctor_judge(judge), rule=rule,
                nontrivial=lambda op, impl: "some:" in impl or "err:" in impl)
     s.shrinkable = False
     return s
@@ -305,6 +332,7 @@ def streams(rng, tier):
         mk("resync", resync_ops(rng, tier), "bad payloads between good frames under random schedules"),
         mk("maxlen", maxlen_ops(rng, tier), "max_len around the frame size, hostile prefixes; oracle: err:len, buffer untouched, allocation bounded"),
         mk("random-walks", random_ops(rng, tier), "seeded random walks; benign ones judged by the oracle, the rest against the model"),
+        mk("long-streams", long_ops(rng, tier), "31..300 frames in one scenario under chunking, Pendings, transient errors and a drop after every / a third of / no poll; oracle: every value once, in order, then none, rem=0"),
     ]
 
 
